@@ -128,27 +128,41 @@ func c38(p *an.Prog, r *an.R, tier string) {
 		r.Check(set || hh.AllSet, "C38.R2", "index.(*Options).HashOptions/sets/"+f.Name(), hd.Decl.Pos(), "field is filled from the options", "HashOptions() leaves HashOptions."+f.Name()+" at its zero value: the option never influences the hash")
 		// fed to the hasher: read inside an argument of a Write call on the hasher
 		fed := false
+		// GetHash's own body and the bodies of the same-package functions it calls (a digest helper)
+		hashBodies := []ast.Node{gd.Decl.Body}
 		ast.Inspect(gd.Decl.Body, func(n ast.Node) bool {
-			c, ok := n.(*ast.CallExpr)
-			if !ok {
-				return true
-			}
-			se, ok := ast.Unparen(c.Fun).(*ast.SelectorExpr)
-			if !ok || se.Sel.Name != "Write" {
-				return true
-			}
-			for _, a := range c.Args {
-				ast.Inspect(a, func(m ast.Node) bool {
-					if s2, ok := m.(*ast.SelectorExpr); ok && s2.Sel.Name == f.Name() {
-						if sel := gd.Pkg.TypesInfo.Selections[s2]; sel != nil && sel.Obj() == f {
-							fed = true
-						}
+			if c, ok := n.(*ast.CallExpr); ok {
+				if hf := an.Callee(gd.Pkg.TypesInfo, c); hf != nil && hf.Pkg() == getHash.Pkg() {
+					if hfd := p.Decl(hf); hfd != nil && hfd.Decl.Body != nil && hf.Name() != "HashOptions" {
+						hashBodies = append(hashBodies, hfd.Decl.Body)
 					}
-					return true
-				})
+				}
 			}
 			return true
 		})
+		for _, hb := range hashBodies {
+			ast.Inspect(hb, func(n ast.Node) bool {
+				c, ok := n.(*ast.CallExpr)
+				if !ok {
+					return true
+				}
+				se, ok := ast.Unparen(c.Fun).(*ast.SelectorExpr)
+				if !ok || se.Sel.Name != "Write" {
+					return true
+				}
+				for _, a := range c.Args {
+					ast.Inspect(a, func(m ast.Node) bool {
+						if s2, ok := m.(*ast.SelectorExpr); ok && s2.Sel.Name == f.Name() {
+							if sel := gd.Pkg.TypesInfo.Selections[s2]; sel != nil && sel.Obj() == f {
+								fed = true
+							}
+						}
+						return true
+					})
+				}
+				return true
+			})
+		}
 		_ = gu
 		r.Check(fed, "C38.R2", "index.(*Options).GetHash/hashes/"+f.Name(), gd.Decl.Pos(), "field is written to the hasher", "GetHash never writes HashOptions."+f.Name()+" to the hasher: changing that option leaves the hash unchanged")
 	}
